@@ -392,6 +392,16 @@ def workload(ctx, repo):
     # every punctuation character as literal text between directives (none
     # of them means anything to strptime)
     if ctx.worker == 0:
+        for fmt in ("%F %X %z\n", "%s\n", "%Y-%m-%dT%H:%M:%S%z\r\n",
+                    "%F %X %z\n\n", "\n%F\n%X\n%z", "%F %X %z\t",
+                    "%F %X %z "):
+            for _ in range(3):
+                kw = make_point(rng)
+                case = {"op": "roundtrip" if "%s" not in fmt else "epoch",
+                        "p": kw, "fmt": fmt, "assumed": [0, 0]}
+                ctx.case = case
+                ctx.ev("cases.literal-whitespace")
+                run_case(ctx, repo, case)
         for j, c in enumerate("|()[]{}*+?.^$\\#&~!<>=@'\"`;,"):
             for fmt in ("%F" + c + "%X" + c + "%z",
                         "%Y" + c + "%m" + c + "%d %H:%M:%S %z",
